@@ -210,15 +210,19 @@ func crashBuildImages(initial *crashFS, events []*crashEvent, bare bool) ([]*cra
 // probes (child processes on a materialised copy of an image)
 
 type crashProbe struct {
-	Raw   string
-	Open  string // "ok" or "err:..."
-	Vals  map[string]string
-	Recs  []string // walprobe
-	Fatal error    // the probe could not be run at all (harness problem)
+	Raw     string
+	Open    string // "ok" or "err:..."
+	Vals    map[string]string
+	Compact string            // "" (not run) | ok:<n> | none | err:...
+	After   map[string]string // reads after the forced compaction cycle
+	Recs    []string          // walprobe
+	AbsLine string            // abstract disk before Open (fs.recover syntax), "" = not asked for
+	CmpLine string            // what Open made of it: open=ok tables=.. vals=.. wal=.. | open=err
+	Fatal   error             // the probe could not be run at all (harness problem)
 }
 
 func crashParseProbe(line string, bare bool) *crashProbe {
-	p := &crashProbe{Raw: line, Vals: map[string]string{}}
+	p := &crashProbe{Raw: line, Vals: map[string]string{}, After: map[string]string{}}
 	for i, f := range strings.Fields(line) {
 		kv := strings.SplitN(f, "=", 2)
 		if bare {
@@ -238,8 +242,14 @@ func crashParseProbe(line string, bare bool) *crashProbe {
 		case "open":
 			p.Open = kv[1]
 		case "close":
+		case "compact":
+			p.Compact = kv[1]
 		default:
-			p.Vals[kv[0]] = kv[1]
+			if strings.HasPrefix(kv[0], "after:") {
+				p.After[kv[0][len("after:"):]] = kv[1]
+			} else {
+				p.Vals[kv[0]] = kv[1]
+			}
 		}
 	}
 	return p
@@ -264,14 +274,22 @@ func crashProbeFS(fs *crashFS, keys []string, bare bool) *crashProbe {
 	if bare {
 		cmd = exec.CommandContext(ctx, self, "walprobe", "--dir", dir)
 	} else {
-		cmd = exec.CommandContext(ctx, self, "crashprobe", "--dir", dir, "--keys", strings.Join(keys, ","))
+		cmd = exec.CommandContext(ctx, self, "crashprobe", "--dir", dir, "--keys", strings.Join(keys, ","), "--abs")
 	}
 	var so, se bytes.Buffer
 	cmd.Stdout, cmd.Stderr = &so, &se
 	err = cmd.Run()
-	line := strings.TrimSpace(so.String())
-	if k := strings.LastIndexByte(line, '\n'); k >= 0 {
-		line = line[k+1:]
+	line := ""
+	absLine, cmpLine := "", ""
+	for _, l := range strings.Split(strings.TrimSpace(so.String()), "\n") {
+		switch {
+		case strings.HasPrefix(l, "abs "):
+			absLine = l[4:]
+		case strings.HasPrefix(l, "cmp "):
+			cmpLine = l[4:]
+		default:
+			line = l
+		}
 	}
 	if err != nil || line == "" {
 		// the library killed the process (log.Panicf in a background goroutine) or it hung: reopening did not succeed
@@ -287,14 +305,16 @@ func crashProbeFS(fs *crashFS, keys []string, bare bool) *crashProbe {
 			return &crashProbe{Fatal: fmt.Errorf("probe child hung for 90 s on an image (machine overloaded, or Open() deadlocks): %s", tail)}
 		}
 		what := "crashed"
-		p := &crashProbe{Open: "err:" + what + ":" + crashSanitize(tail), Vals: map[string]string{}}
+		p := &crashProbe{Open: "err:" + what + ":" + crashSanitize(tail), Vals: map[string]string{}, AbsLine: absLine, CmpLine: "open=err"}
 		p.Raw = "open=" + p.Open
 		return p
 	}
 	if strings.Contains(line, "err:timeout") {
 		return &crashProbe{Fatal: fmt.Errorf("probe child gave up after 60 s on an image (machine overloaded, or Open() deadlocks)")}
 	}
-	return crashParseProbe(line, bare)
+	p := crashParseProbe(line, bare)
+	p.AbsLine, p.CmpLine = absLine, cmpLine
+	return p
 }
 
 func crashParallel(n int, f func(i int)) {
@@ -475,6 +495,36 @@ func (ev *crashEval) violate(prop, sig, detail, cs string) {
 		return
 	}
 	ev.res.Violate(ev.idx, prop, sig, detail, cs)
+}
+
+// what a recovery leaves behind must survive a compaction cycle over all tables (run by the probe after its reads)
+func (ev *crashEval) evalCompaction(im *crashImage, abs *crashAbs, probe *crashProbe, prop, pre, cs string) {
+	if probe.Open != "ok" || probe.Compact == "" {
+		return
+	}
+	ev.res.Evaluations++
+	if strings.HasPrefix(probe.Compact, "err") {
+		ev.res.Stat("post-recovery-compaction:fails")
+		ev.badHash[im.Hash] = true
+		ev.violate(prop, pre+"compaction-fails-after-recovery:"+abs.Class(), "the compaction cycle over all tables after re-opening failed: "+probe.Compact, cs)
+		return
+	}
+	ev.res.Stat("post-recovery-compaction:" + strings.SplitN(probe.Compact, ":", 2)[0])
+	for _, k := range ev.run.S.Keys {
+		if probe.After[k] != probe.Vals[k] {
+			ev.badHash[im.Hash] = true
+			ev.violate(prop, pre+"reads-change-after-post-recovery-compaction:"+abs.Class(),
+				fmt.Sprintf("key %s reads %s after re-opening and %s after the compaction cycle that followed", k, probe.Vals[k], probe.After[k]), cs)
+			return
+		}
+	}
+}
+
+func (ev *crashEval) compactionProp() string {
+	if ev.run.S.Flavour == "async" {
+		return "C13"
+	}
+	return "C02"
 }
 
 // C02 / C17: acknowledged effects exactly, the op in flight present or absent
@@ -668,7 +718,7 @@ func crashTraceRecovery(im *crashImage, keys []string, maxStr int, keepLog strin
 		n.err = err
 		return n
 	}
-	t, err := crashTraceRun(db, maxStr, 3*time.Minute, keepLog, "crashprobe", "--dir", db, "--keys", strings.Join(keys, ","), "--markfd", "3")
+	t, err := crashTraceRun(db, maxStr, 3*time.Minute, keepLog, "crashprobe", "--dir", db, "--keys", strings.Join(keys, ","), "--markfd", "3", "--nocompact")
 	if err != nil {
 		n.err = err
 		return n
@@ -1065,6 +1115,33 @@ func runCrash(res *Result, drv *Driver, seed uint64, n int, tier string, only in
 			}
 		}
 
+		if !s.Bare {
+			// once per distinct image: the compaction cycle after the recovery, and the Lean abstract-disk model
+			done := map[string]bool{}
+			big := false
+			for _, o := range s.Ops {
+				big = big || strings.HasPrefix(o.ValTok, "g") && o.Len > 100000
+			}
+			for _, im := range sel {
+				if done[im.Hash] {
+					continue
+				}
+				done[im.Hash] = true
+				probe := cache.m[im.Hash]
+				ev.evalCompaction(im, im.Abs, probe, ev.compactionProp(), "", ev.caseStr(im, probe, ""))
+				if drv == nil {
+					continue
+				}
+				if big {
+					res.Stat("model:fs.recover-skipped-values-too-big-for-the-line-protocol")
+					continue
+				}
+				if err := crashCmpFsRecover(res, drv, idx, s, im, probe, ev.caseStr(im, probe, "")); err != nil {
+					return fmt.Errorf("session %d: %w", idx, err)
+				}
+			}
+		}
+
 		// C10
 		if (crashFlavour == "all" || crashFlavour == "" || crashFlavour == "nested") && !s.Bare {
 			if err := crashRunNested(res, ev, run, sel, cache, thorough); err != nil {
@@ -1264,6 +1341,7 @@ func crashRunNested(res *Result, ev *crashEval, run *crashRun, sel []*crashImage
 				res.Stat("nested:images-in-close-after-recovery")
 			}
 			extra := fmt.Sprintf(" | then recovery of that image interrupted after %s | depth-2 image: %s | depth-2 reopen: %s", x.where, x.abs.Line(), clipN(p.Raw, 400))
+			ev.evalCompaction(n.im, x.abs, p, prop, pre, ev.caseStr(n.im, n.expected, extra))
 			if p.Open != "ok" {
 				ev.violate(prop, pre+"open-fails:"+crashOpenFailClass(x.abs, p.Open)+":interrupted-at-"+x.at, "re-opening after an interrupted recovery failed: "+p.Open, ev.caseStr(n.im, n.expected, extra))
 				continue
@@ -1395,4 +1473,51 @@ func crashNestedKey(a *crashAbs) (string, int) {
 		score = 30
 	}
 	return fmt.Sprintf("W[%s] C[%s] partial=%v half=%v tables=%d", strings.Join(w, " "), strings.Join(c, " "), partial > 0, half, len(a.Tables)), score
+}
+
+// crashCmpFsRecover ties the Lean abstract-disk model (L6-fs, driver command fs.recover) to a real image: the abstract
+// disk is computed from the real files by the probe child (real table reader, real record reader, the library's
+// protobuf types) before it calls Open; the model's recover must agree with the real Open on success/failure, on what
+// every key reads as, on the live tables and on the log files afterwards. ok=0 means the image is outside DiskOk,
+// i.e. a disk the crash theorems do not cover. Any difference is a disagreement (correspondence), not a violation.
+func crashCmpFsRecover(res *Result, drv *Driver, idx int, s *crashSession, im *crashImage, probe *crashProbe, cs string) error {
+	if probe.AbsLine == "" || probe.CmpLine == "" {
+		res.Stat("model:fs.recover-skipped-no-abstract-disk")
+		return nil
+	}
+	for _, bad := range []string{"UNSCANNABLE", "UNPARSABLE", "UNREADABLE", "OTHER="} {
+		if strings.Contains(probe.AbsLine, bad) {
+			res.Stat("model:fs.recover-skipped-" + strings.ToLower(strings.TrimSuffix(bad, "=")))
+			if os.Getenv("CRASH_DEBUG_SKIPS") != "" {
+				fmt.Fprintf(os.Stderr, "SKIP %s | %s | %s\n", bad, im.Abs.Line(), probe.AbsLine)
+			}
+			return nil
+		}
+	}
+	m, err := drv.Ask("fs.recover " + probe.AbsLine + " keys=" + strings.Join(s.Keys, ","))
+	if err != nil {
+		return err
+	}
+	model := m
+	switch {
+	case strings.HasPrefix(m, "err:"):
+		model = "open=err"
+		res.Stat("model:fs.recover:" + m)
+	case strings.HasPrefix(m, "ok "):
+		var keep []string
+		for _, f := range strings.Fields(m[3:]) {
+			if !strings.HasPrefix(f, "events=") {
+				keep = append(keep, f)
+			}
+		}
+		model = "open=ok " + strings.Join(keep, " ")
+		res.Stat("model:fs.recover:ok")
+	}
+	impl := probe.CmpLine
+	if strings.HasPrefix(impl, "open=ok ") {
+		impl = "open=ok ok=1 " + impl[len("open=ok "):]
+	}
+	res.Stat("model:fs.recover-compared")
+	res.Cmp(idx, "fs.recover (abstract disk of a real image vs the real Open)", model, impl, cs+" | abstract disk: "+clipN(probe.AbsLine, 1500))
+	return nil
 }
